@@ -449,8 +449,18 @@ func (s *Server) attachClient(cl *Client, listener string) error {
 		return packets.ErrBadUsernameOrPassword
 	}
 
-	atomic.AddInt64(&s.Info.ClientsConnected, 1)
+	connected := atomic.AddInt64(&s.Info.ClientsConnected, 1)
 	defer atomic.AddInt64(&s.Info.ClientsConnected, -1)
+	if connected > s.Options.Capabilities.MaximumClients {
+		// Another connection was counted between the check above and this increment.
+		if cl.Properties.ProtocolVersion < 5 {
+			s.SendConnack(cl, packets.ErrServerUnavailable, false, nil)
+		} else {
+			s.SendConnack(cl, packets.ErrServerBusy, false, nil)
+		}
+
+		return packets.ErrServerBusy
+	}
 
 	s.hooks.OnSessionEstablish(cl, pk)
 
